@@ -2,6 +2,7 @@
 # tools/mutest.sh <patch.diff> <Cxx>...   apply a seeded change to /repo, run the checks, undo it
 patch="$1"; shift
 cd /verif
+rm -rf /tmp/evidence.keep; cp -r evidence /tmp/evidence.keep   # checks rewrite evidence/: keep the clean-tree files
 git -C /repo reset -q --hard HEAD
 if ! git -C /repo apply --3way "$patch" >/dev/null 2>&1; then echo "PATCH DOES NOT APPLY: $patch"; git -C /repo reset -q --hard HEAD; exit 9; fi
 git -C /repo reset -q    # keep the change in the working tree only
@@ -11,3 +12,4 @@ for p in "$@"; do
   grep -E "^(CONTRACT-STALE|UNDECIDED|CHECKER-ERROR)" /tmp/mutest.$p.out | head -3 | cut -c1-200
 done
 git -C /repo checkout -- . ; git -C /repo reset -q --hard HEAD
+rm -rf evidence; cp -r /tmp/evidence.keep evidence
